@@ -140,6 +140,43 @@ def run(ctx, rep):
                        f'atan2 numerator is {show(y, maxd=4)[:100]}' + (' - the longitude difference is reversed (lonK - lon)' if rev else ''))
     else:
         rep.ob('R16.5', 'delta-longitude', None, 'longitude difference term not found')
+    # R16.7 the atan2 arguments against the great-circle bearing formula, and the north/south mirror
+    parl = D.parity(deg, {lat})
+    rep.ob('R16.7', 'north-south-mirror', True if parl == D.ASYM else (False if parl in (D.EVEN, D.ODD) else None),
+           'the bearing changes, and not just in sign, when the latitude is mirrored (cos(lat) tan(latK) is even, sin(lat) cos(dLon) is odd)'
+           if parl == D.ASYM else
+           f'the bearing is {parl} under latitude -> -latitude: a site and its mirror image across the equator get '
+           f'{"the same" if parl == D.EVEN else "opposite"} bearings, which the great-circle formula does not allow')
+    if top_atan2 and dl is not None and klat:
+        from .. import formula as F
+        Lr = ('app', 'to_radians', (lat,))
+        Kr = None
+        for x in subterms(deg):
+            if x and x[0] == 'app' and x[1] == 'tan' and x[2][0][0] == 'app' and x[2][0][1] == 'to_radians' and const_f64(x[2][0][2][0]) is not None:
+                Kr = x
+        n_ref = ('app', 'sin', (dl,))
+        d_ref = ('bin', 'Sub', ('bin', 'Mul', ('app', 'cos', (Lr,)), Kr), ('bin', 'Mul', ('app', 'sin', (Lr,)), ('app', 'cos', (dl,))))
+        cn = F.Canon()
+        pn, pd, rn, rd = (cn.cf(E.intern(t)) for t in (inner[2][0], inner[2][1], n_ref, d_ref))
+        if F.poly_eq(pn, rn) and F.poly_eq(pd, rd):
+            res = True
+            why = 'atan2(sin dLon, cos(lat) tan(latK) - sin(lat) cos dLon), term by term'
+        else:
+            cross = F.padd(F.pmul(pn, rd), F.pmul(pd, rn), -1.0)
+            cross = {m: c for m, c in cross.items() if abs(c) > 1e-9}
+            ref_atoms = F.atom_skels(rn) | F.atom_skels(rd)
+            got_atoms = F.atom_skels(pn) | F.atom_skels(pd)
+            if not cross:
+                res, why = None, 'the atan2 arguments are proportional to the reference pair; the sign of the common factor is not decided'
+            elif got_atoms <= ref_atoms:
+                res = False
+                why = (f'the atan2 arguments are ({show(inner[2][0], maxd=4)[:80]}, {show(inner[2][1], maxd=5)[:140]}): over the same '
+                       'sines and cosines they are not proportional to (sin dLon, cos(lat) tan(latK) - sin(lat) cos dLon)')
+            else:
+                res, why = None, f'the atan2 arguments use other terms than the reference formula: {show(inner[2][1], maxd=4)[:120]}'
+        rep.ob('R16.7', 'bearing-formula', res, why)
+    else:
+        rep.ob('R16.7', 'bearing-formula', None, 'atan2 / delta-longitude / tan(latK) not recognised')
     # R16.3 label and text
     rot = ctx.pub_fn('rotation', 'Qibla')
     eng2 = ctx.engine()
@@ -167,5 +204,37 @@ def run(ctx, rep):
         has_rot = rot in names
         rep.ob('R16.3', 'display-magnitude-and-label', has_abs and has_rot,
                f'Display prints |{dname}| ({has_abs}) and rotation() ({has_rot})')
+        # R16.8 the label is printed whole whatever the caller's format options: `Formatter::pad` (and str's Display, which is
+        # `pad`) cuts its argument to the precision in force, so it may only be reached through a fresh `{}` of write!/format_args!,
+        # never with the formatter Qibla's own Display was handed (that one carries the caller's `{:.N}`)
+        chain, todo = [], [fmt[0]]
+        while todo:
+            f_ = todo.pop()
+            if f_ in chain:
+                continue
+            chain.append(f_)
+            for _, t in ctx.lib.bodies[f_].calls():
+                n = callee_name(t) or ''
+                cb = ctx.lib.bodies.get(n)
+                if cb is not None and cb.impl_of and (cb.impl_of.get('trait') or '').endswith('fmt::Display') and last_seg(n) == 'fmt':
+                    todo.append(n)
+        cut = []
+        for f_ in chain:
+            for _, t in ctx.lib.bodies[f_].calls():
+                n = callee_name(t) or ''
+                if n.endswith("Formatter::<'a>::pad") or n.endswith('Formatter::pad') or n in (
+                        '<str as std::fmt::Display>::fmt', '<std::string::String as std::fmt::Display>::fmt',
+                        '<str as core::fmt::Display>::fmt', '<alloc::string::String as core::fmt::Display>::fmt'):
+                    cut.append((f_, n))
+        reads = [f_ for f_ in chain for _, t in ctx.lib.bodies[f_].calls()
+                 if (callee_name(t) or '').endswith("Formatter::<'a>::precision") or (callee_name(t) or '').endswith('Formatter::precision')]
+        # definite only as a contradiction: the same formatter's precision is read as a number of decimals in one place and
+        # acts as a maximum length in another; a `pad` alone gives `{:.N}` the meaning it has for strings (not decided)
+        rep.ob('R16.8', 'label-printed-whole', True if not cut else (False if reads else None),
+               f'no text of the Qibla rendering goes through a precision-sensitive sink with the caller\'s formatter ({len(chain)} fmt bodies)'
+               if not cut else
+               f'{cut[0][0]} calls {cut[0][1]} with the formatter handed to Qibla\'s Display (directly delegated, {len(chain)} fmt bodies in '
+               'the chain): under `{:.N}` the text is cut to N characters - the rotation label loses its letters',
+               where=ctx.lib.bodies[cut[0][0]].span if cut else None)
     else:
         rep.ob('R16.3', 'display', None, 'Display impl not found')
